@@ -13,8 +13,9 @@ from ..interval import Interp, Iv, INPUT_BOUND, INF
 META = {
     'explanation': 'C09 (range clauses only): every StateSpace::distance body is abstractly interpreted over intervals with a '
                    'NaN flag; the result must be in [0, +inf) (R^n, compound) resp. [0, pi] (SO(2), SO(3)) and never NaN for '
-                   'all finite inputs. Identity, symmetry, triangle inequality, representation invariance and agreement '
-                   'with a reference are NOT decided by this check.',
+                   'all finite inputs. Symmetry, d(a,a)=0 and 2 pi periodicity on SO(2) are decided on the normal form of each body '
+                   '(value numbering over polynomial normal forms with gating terms, real-number reading; undecided where the value '
+                   'is not tracked). The triangle inequality and agreement with a reference are NOT decided by this check.',
     'assumptions': ['state and space fields are finite, non-NaN and below %g in magnitude' % INPUT_BOUND,
                     'f64 library functions have their documented ranges (acos, rem_euclid may return its modulus through rounding)'],
 }
